@@ -86,7 +86,11 @@ impl<'a> ImgModel<'a> {
     pub fn admissible(&self, x: i32, y: i32) -> Vec<u32> {
         let (px, py) = mat_apply(&self.m, x as f64 + 0.5, y as f64 + 0.5);
         let mag = self.m.iter().fold(0.0f64, |a, b| a.max(b.abs()));
-        let slack = if self.integer { 0.0 } else { (x.abs() + y.abs() + 2) as f64 * 1.5 / 65536.0 * (1.0 + mag) + 2e-6 * (1.0 + px.abs() + py.abs()) * (1.0 + mag) };
+        // a pure translation by a multiple of 2^-16 is represented exactly in the 16.16 matrix and
+        // every pixel centre maps exactly: no slack (texel-boundary ties must go to floor)
+        let dyadic = |v: f64| (v * 65536.0).fract() == 0.0 && v.abs() < 16384.0;
+        let exact_translation = self.m[0] == 1.0 && self.m[1] == 0.0 && self.m[2] == 0.0 && self.m[3] == 1.0 && dyadic(self.m[4]) && dyadic(self.m[5]);
+        let slack = if self.integer || exact_translation { 0.0 } else { (x.abs() + y.abs() + 2) as f64 * 1.5 / 65536.0 * (1.0 + mag) + 2e-6 * (1.0 + px.abs() + py.abs()) * (1.0 + mag) };
         let mut out = Vec::new();
         if self.integer || !self.bilinear {
             // nearest (and the integer-translation route for either filter): texel floor(p)
